@@ -13,6 +13,7 @@ from .brokers import (
     inmem_transfer_atomic,
     own_rules,
     rabbit_rules,
+    redis_op_fields,
     redis_source_rules,
     redis_txn_rules,
     terminal_callers_rule,
@@ -39,6 +40,7 @@ def run(ctx: Ctx) -> None:
     inmem_source(ctx)
     redis_txn_rules(ctx)
     redis_source_rules(ctx)
+    redis_op_fields(ctx, "R-C01-TRANSFER")
     redis_orphan(ctx)
     rabbit_rules(ctx)
     own_rules(ctx)
